@@ -18,6 +18,10 @@ Enumerated completely:
     x memory layout {C, Fortran, transposed view, strided slice} of the 4-D stack x both classes x both dataset paths x every
     batch size, against the same float64 weighted mean of the stored values, and shift_origin_to of the same stack against
     np.roll (complex64, rejected on HEAD, is counted; any other rejected dtype or layout fails);
+  * intensity scale {1e-30 .. 1e30} (float32 where representable, float64) on every centre-of-mass path and batch size: weighted
+    mean and scale invariance; plane / constant fits with slopes x {1e-3, 1} and offsets {0, +-100, +-1000} px;
+  * integer-origin RANGE: shift_origin_to with per-pattern origins and target coordinate over [-2H,2H] x [-2W,2W] (negative,
+    zero, exactly H/W, beyond, mixed signs, planes crossing the edges), shift_array over the same range;
   * call histories: every single call / ordered pair (thorough: triple) of calculate_origin, shift_origin_to (corner and
     other targets), fit_origin_background and preprocess on models sharing a detector shape, modules re-imported before each
     history, the LAST call judged ("a result must not depend on earlier calls"), inputs bit-identical afterwards.
@@ -62,7 +66,7 @@ RULE = (
     "actually splits the set or the row and column centres differ by > 0.05 px (a swap would show); a shift point when the roll is "
     "not the identity; distinct = distinct (configuration, batch size, path). Shift parts also on detectors {13,16,17,26}x{8,13} "
     "both ways (scan (2,3)); shift_array: every integer shift x 2 branches; integer-origin roll: scans x detectors x 3 origin/fit "
-    "kinds x both classes x (vectorized, bilinear); call histories: all singles and ordered pairs (thorough: triples) over 20 calls; input dtype (8, three count levels) x layout (4) "
+    "kinds x both classes x (vectorized, bilinear); call histories: all singles and ordered pairs (thorough: triples) over 20 calls; intensity scale (8 powers of ten x float32/float64) x all paths; origin range [-2H,2H]x[-2W,2W] for origins and target; input dtype (8, three count levels) x layout (4) "
     "x 2 scans x 2 detectors x all paths and batch sizes."
 )
 
@@ -555,7 +559,8 @@ def run_preprocess_obj(arr, vectorized, fit_function, bilinear, have_vec=True):
 
 # ----------------------------------------------------------------------------- part 4: ptycho_utils.shift_array, every integer shift
 def shift_array_case(case, verbose=False):
-    """case = {det, seed}: shift_array(pattern, r, c) for every integer (r, c) with |r| < H, |c| < W, Fourier and bilinear branch."""
+    """case = {det, seed}: shift_array(pattern, r, c) for every integer (r, c) in [-2H, 2H] x [-2W, 2W] (lengths > 9: |r| < H plus
+    the edge / beyond values -2H, -H-1, -H, H, H+1, 2H), Fourier and bilinear branch."""
     from quantem.diffractive_imaging.ptycho_utils import shift_array
 
     det = tuple(case["det"])
@@ -563,9 +568,14 @@ def shift_array_case(case, verbose=False):
     ar = np.sqrt(make_data((1, 1), det, "ramp", case["seed"])[0, 0])  # an amplitude, as preprocess passes it
     snap = ar.copy()
     fails, points = [], []
-    rows = [case["row"]] if "row" in case else range(-H + 1, H)
+    def full(n):
+        if n <= 9:
+            return list(range(-2 * n, 2 * n + 1))
+        return sorted(set(range(-n + 1, n)) | {-2 * n, -n - 1, -n, n, n + 1, 2 * n})
+
+    rows = [case["row"]] if "row" in case else full(H)
     for r in rows:
-        for c in ([case["col"]] if "col" in case else range(-W + 1, W)):
+        for c in ([case["col"]] if "col" in case else full(W)):
             ref = np.roll(ar.astype(np.float64), (r, c), axis=(0, 1))
             for bil in (False, True):
                 try:
@@ -1088,6 +1098,261 @@ def eval_dtype(case):
     return t
 
 
+# ----------------------------------------------------------------------------- part 8: intensity scale
+# The centre of mass is the weighted mean whatever the overall magnitude of the (positive) intensities, and it is scale
+# invariant. Scales are powers of ten; a scale is used only if every stored float32 value and every float32 sum the weighted
+# mean needs (total x largest coordinate) is a normal, finite float32 number (guarded exactly below).
+SCALES = [1e-30, 1e-20, 1e-12, 1e-6, 1.0, 1e6, 1e12, 1e30]
+SC_SCANS = [(2, 3), (1, 5)]
+SC_DETS = [(6, 8), (7, 7)]
+
+
+def scale_representable(base64, scale):
+    a32 = (base64 * scale).astype(np.float32)
+    tiny, big = float(np.finfo(np.float32).tiny), float(np.finfo(np.float32).max)
+    if not np.all(np.isfinite(a32)) or np.any(np.abs(a32) < tiny):
+        return False
+    worst = float(a32.astype(np.float64).sum((-2, -1)).max()) * max(a32.shape[-2:])
+    return worst < big / 4 and float(a32.astype(np.float64).min()) > tiny * 4
+
+
+def scale_case(case, verbose=False):
+    """case = {scan, det, kind, dtype (float32|float64), scale, seed}: all centre-of-mass paths, every batch size."""
+    from quantem.diffractive_imaging.origin_models import CenterOfMassOriginModel
+
+    scan, det, kind, dt, scale, seed = tuple(case["scan"]), tuple(case["det"]), case["kind"], case["dtype"], case["scale"], case["seed"]
+    sm = seams()
+    N = scan[0] * scan[1]
+    base64 = make_data(scan, det, kind, seed).astype(np.float64)
+    if not scale_representable(base64, scale):
+        return [], [], "skipped"
+    arr = (base64 * scale).astype(np.float32).astype(dt)  # the same stored values in both dtypes
+    er, ec = oracle_com(arr.astype(np.float32), None)
+    er1, ec1 = oracle_com(base64.astype(np.float32), None)
+    if max(float(np.max(np.abs(er - er1))), float(np.max(np.abs(ec - ec1)))) > 1e-6:
+        raise Broken(f"scale data builder: rounding the scaled values to float32 moves the centre of mass by more than 1e-6 px ({case})")
+    fails, points = [], []
+    basec = {"part": "scale", "scan": list(scan), "det": list(det), "kind": kind, "dtype": dt, "scale": scale, "seed": seed}
+
+    def judge(path, got_r, got_c, extra):
+        got_r = np.asarray(got_r, dtype=np.float64).reshape(scan)
+        got_c = np.asarray(got_c, dtype=np.float64).reshape(scan)
+        with np.errstate(invalid="ignore"):
+            d = max(float(np.max(np.abs(got_r - er))), float(np.max(np.abs(got_c - ec))))
+            d1 = max(float(np.max(np.abs(got_r - er1))), float(np.max(np.abs(got_c - ec1))))
+        if not (d <= TOL_COM):
+            fails.append(({"relation": "com_equals_weighted_mean_at_any_intensity_scale", "path": path}, dict(basec, path=path, **extra), f"{path} {extra} on {dt} intensities x {scale:g} (pattern totals {float(arr.astype(np.float64).sum((-2, -1)).min()):.3g} .. {float(arr.astype(np.float64).sum((-2, -1)).max()):.3g}, scan {scan} det {det} data {kind}): centre of mass differs from the float64 weighted mean by {d:.3e} px; first pattern got ({got_r.ravel()[0]:.5f}, {got_c.ravel()[0]:.5f}), expected ({er.ravel()[0]:.5f}, {ec.ravel()[0]:.5f})"))
+        elif not (d1 <= TOL_COM):
+            fails.append(({"relation": "com_scale_invariant", "path": path}, dict(basec, path=path, **extra), f"{path} {extra}: centre of mass of the intensities x {scale:g} differs from that of the unscaled intensities by {d1:.3e} px"))
+        if verbose:
+            print(f"    {path:42s} {str(extra):22s} max deviation {d:.3e} px (vs unscaled data {d1:.3e})")
+        return np.stack([got_r, got_c])
+
+    def attempt(path, fn, extra=None):
+        try:
+            return fn()
+        except Broken:
+            raise
+        except Exception as e:
+            fails.append(({"relation": "path_runs", "path": path}, dict(basec, path=path, **(extra or {})), f"{path} {extra or ''} raised {type(e).__name__}: {str(e)[:200]} on {dt} intensities x {scale:g} (scan {scan} det {det})"))
+            return None
+
+    res = {}
+    om = attempt("CenterOfMassOriginModel.from_dataset", lambda: CenterOfMassOriginModel.from_dataset(make_ds(arr)))
+    if om is not None:
+        for bs in batch_sizes(N):
+            if attempt("CenterOfMassOriginModel.calculate_origin", lambda: (om.calculate_origin(bs), 1), {"batch_size": bs}) is None:
+                continue
+            o = om.origin_measured.detach().cpu().numpy().astype(np.float64).reshape(*scan, 2)
+            g = judge("CenterOfMassOriginModel.calculate_origin", o[..., 0], o[..., 1], {"batch_size": bs})
+            if bs is None:
+                res["om"] = g
+            points.append((["om", bs], scale != 1.0))
+    for vec in (True, False) if sm["preprocess_vectorized"] else (True,):
+        path = f"preprocess(vectorized={vec}).com_measured"
+        r = attempt(path, lambda: run_preprocess_from(arr, vec, sm))
+        if r is None:
+            continue
+        res[vec] = judge(path, r[0], r[1], {})
+        points.append((["ds", vec], scale != 1.0))
+    for a, b, rel_, name in ((True, False, "paths_agree", "preprocess vectorized vs looped"), (True, "om", "classes_agree", "preprocess(vectorized=True) vs calculate_origin"), (False, "om", "classes_agree", "preprocess(vectorized=False) vs calculate_origin")):
+        if a in res and b in res:
+            with np.errstate(invalid="ignore"):
+                d = float(np.max(np.abs(res[a] - res[b])))
+            if not (d <= TOL_COM):
+                fails.append(({"relation": rel_, "path": name, "scale": "not 1" if scale != 1.0 else "1"}, dict(basec, path=name), f"{name} disagree by {d:.3e} px on {dt} intensities x {scale:g} (scan {scan} det {det} data {kind})"))
+    return _tag(fails), points, "run"
+
+
+def eval_scale(case):
+    t = Tally()
+    fails, points, status = scale_case(case)
+    key0 = [case["scan"], case["det"], case["kind"], case["dtype"], case["scale"]]
+    for key, nontriv in points:
+        t.case(key=key0 + key, nontrivial=nontriv, outcome=None)
+    for cls, sub, msg in fails:
+        t.fail(cls, sub, msg)
+    t.extra[f"scale_configurations_{status}"] += 1
+    t.extra[f"scale_{case['dtype']}_{case['scale']:g}_{status}"] += 1
+    if status == "run" and case["scale"] == 1e-12 and case["dtype"] == "float32" and case["kind"] == "ramp" and tuple(case["det"]) == (6, 8):
+        t.sample({"intensity_scale": key0, "paths_and_batch_sizes": len(points)}, cap=1)
+    return t
+
+
+# plane / constant fits of origins of small and large magnitude: slopes x {1e-3, 1} and constant offsets {0, +-100, +-1000} px
+# added to the exact planes. Tolerance 1e-5 x max(|origin|, 10): 1e-4 px for ordinary magnitudes (as TOL_FIT), 1e-2 px at 1000 px;
+# HEAD delivers one float32 ulp of the magnitude (worst observed 1.2e-4 px at 1000 px, 1.5e-5 px at 100 px, 6e-7 px at <= 10 px).
+# NOT in the alphabet: slopes multiplied by >= 30 (origins moving tens of detector pixels per scan step): the float32 PCA of
+# fit_origin_background loses precision quadratically in the slope (relative error 9e-5 at x30, 1e-3 at x100, 7e-2 at x1000,
+# measured on HEAD; fit_origin is exact there) - a conditioning limit of the method, reported, not a verdict.
+ORIGIN_OFFSETS = [0.0, -1000.0, -100.0, 100.0, 1000.0]
+SLOPE_SCALES = [1e-3, 1.0]
+
+
+def fit_scale_case(case, verbose=False):
+    """case = {scan, coef_r, coef_c, slope_scale, offset}: the exact plane (constant) with scaled slopes plus a constant offset."""
+    from quantem.diffractive_imaging.origin_models import CenterOfMassOriginModel
+    from quantem.diffractive_imaging.ptycho_utils import fit_origin
+
+    scan, ssc, off = tuple(case["scan"]), case["slope_scale"], case["offset"]
+    cr, cc = tuple(case["coef_r"]), tuple(case["coef_c"])
+    pr, pc = plane_values(scan, cr) * ssc + off, plane_values(scan, cc) * ssc - off / 2
+    mag = max(float(np.max(np.abs(pr))), float(np.max(np.abs(pc))))
+    tol = 1e-5 * max(mag, 10.0)
+    constant = cr[:2] == (0.0, 0.0) and cc[:2] == (0.0, 0.0)
+    degenerate = 1 in scan
+    fails, outs = [], []
+    base = {"part": "fit_scale", "scan": list(scan), "coef_r": list(cr), "coef_c": list(cc), "slope_scale": ssc, "offset": off}
+    where = f"scan {scan}: origins exactly on (row-plane {cr}, column-plane {cc}) x {ssc:g} + offsets ({off:g}, {-off / 2:g})"
+    for fit in ["plane"] + (["constant"] if constant else []):
+        rel_ = f"{fit}_fit_returns_{fit}_at_any_magnitude"
+        try:
+            with warnings.catch_warnings():
+                warnings.simplefilter("ignore")
+                qr, qc, _, _ = fit_origin(data=(pr.copy(), pc.copy()), fit_function=fit, mask=np.ones(scan, dtype=bool))
+            d = max(float(np.max(np.abs(qr - pr))), float(np.max(np.abs(qc - pc))))
+        except Exception:
+            d = float("inf")
+        if not (d <= tol):
+            fails.append(({"relation": rel_, "path": "fit_origin", "scan_has_axis_of_length_1": degenerate}, dict(base, fit=fit, path="fit_origin"), f"fit_origin({fit!r}) on {where}: off by {d:.3e} px (tolerance {tol:.1e})"))
+        try:
+            om = CenterOfMassOriginModel.from_dataset(make_ds(np.ones((*scan, 2, 3), dtype=np.float32)))
+            want = np.stack([pr, pc], -1).reshape(-1, 2)
+            om.origin_measured = torch.tensor(want, dtype=torch.float32)
+            om.fit_origin_background(fit_method=fit)
+            of = om.origin_fitted.detach().cpu().numpy().astype(np.float64)
+            d2 = float(np.max(np.abs(of - want))) if np.all(np.isfinite(of)) else float("inf")
+        except Exception:
+            d2 = float("inf")
+        if not (d2 <= tol):
+            if degenerate and fit == "plane":  # the known PCA finding on scans with an axis of length 1: same class as in the fit part
+                cls = {"relation": "plane_fit_returns_plane", "path": "fit_origin_background", "scan_has_axis_of_length_1": True, "via": "direct, origins of other magnitude"}
+            else:
+                cls = {"relation": rel_, "path": "fit_origin_background", "scan_has_axis_of_length_1": degenerate}
+            fails.append((cls, dict(base, fit=fit, path="fit_origin_background"), f"fit_origin_background({fit!r}) on {where}: off by {d2:.3e} px (tolerance {tol:.1e})"))
+        if verbose:
+            print(f"    {fit}: fit_origin {d:.3e} px, fit_origin_background {d2:.3e} px (tolerance {tol:.1e})")
+        outs.append([fit, d, d2])
+    return _tag(fails), outs
+
+
+def eval_fit_scale(item):
+    scan, ssc, off = item
+    t = Tally()
+    grid = coefficient_grid()
+    cases = [(cr, grid[(i * 7 + 3) % len(grid)]) for i, cr in enumerate(grid) if i % 3 == 0]
+    cases += [((0.0, 0.0, b1), (0.0, 0.0, b2)) for b1, b2 in itertools.product(CONSTANTS[1:], CONSTANTS[1:])]
+    for cr, cc in cases:
+        case = {"part": "fit_scale", "scan": list(scan), "coef_r": list(cr), "coef_c": list(cc), "slope_scale": ssc, "offset": off}
+        fails, outs = fit_scale_case(case)
+        t.case(key=case, nontrivial=True, outcome=None)
+        for cls, sub, msg in fails:
+            t.fail(cls, sub, msg)
+        t.extra["fit_scale_cases"] += 1
+    return t
+
+
+# ----------------------------------------------------------------------------- part 9: integer-origin RANGE of shift_origin_to
+# Per-pattern integer origins and the target coordinate over [-2H, 2H] x [-2W, 2W]: negative, zero, exactly H / W, beyond, mixed
+# signs per pattern, planes crossing the detector edges; both modes; oracle np.roll by (coordinate - origin) (np.roll is modular).
+def range_values(n):
+    return list(range(-2 * n, 2 * n + 1))
+
+
+def range_coarse(n):
+    return [-2 * n, -n - 1, -n, -1, 0, 1, n - 1, n, n + 1, 2 * n]
+
+
+def range_case(case, verbose=False):
+    """case = {scan, det, variant, row, seed} (+ optional col, batch_size, mode). Variants:
+    uniform      origin (row, c) for every c in [-2W, 2W], target (0, 0), batch sizes {None, 4}
+    per_pattern  origin_k = (row - 2 + k, c + 3 - 2k): a plane crossing the edges, mixed signs, target (0, 0), batch sizes {None, 4}
+    coarse       origins as per_pattern on the coarse grid, EVERY batch size
+    coordinate   fixed per-pattern origins, target coordinate (row, c) over the full range, batch sizes {None, 4}"""
+    from quantem.diffractive_imaging.origin_models import CenterOfMassOriginModel
+
+    scan, det, variant, row, seed = tuple(case["scan"]), tuple(case["det"]), case["variant"], case["row"], case["seed"]
+    H, W = det
+    N = scan[0] * scan[1]
+    arr = make_data(scan, det, "ramp" if variant in ("uniform", "coordinate") else "seeded", seed)
+    flat = arr.reshape(N, H, W)
+    om = CenterOfMassOriginModel.from_dataset(make_ds(arr))
+    kk = np.arange(N)
+    cols = [case["col"]] if "col" in case else (range_coarse(W) if variant == "coarse" else range_values(W))
+    bss = batch_sizes(N) if variant == "coarse" else [None, 4]
+    if "batch_size" in case:
+        bss = [case["batch_size"]]
+    modes = [case["mode"]] if "mode" in case else ["bilinear", "nearest"]
+    fails, points = [], []
+    for c in cols:
+        if variant == "uniform":
+            org = np.tile(np.array([[row, c]]), (N, 1))
+            coord = (0, 0)
+        elif variant in ("per_pattern", "coarse"):
+            org = np.stack([row - 2 + kk, c + 3 - 2 * kk], -1)
+            coord = (0, 0)
+        else:
+            org = np.stack([(1 + kk) % H - 2, 3 - (2 * kk) % W], -1)
+            coord = (row, c)
+        ref = np.stack([np.roll(flat[k], (int(coord[0] - org[k, 0]), int(coord[1] - org[k, 1])), axis=(0, 1)) for k in range(N)]).reshape(arr.shape)
+        mixed = bool(np.any(org < 0) and np.any(org > 0))
+        for bs, mode in itertools.product(bss, modes):
+            sub = {"part": "range", "scan": list(scan), "det": list(det), "variant": variant, "row": row, "col": c, "batch_size": bs, "mode": mode, "seed": seed}
+            try:
+                om.origin_fitted = torch.tensor(org, dtype=torch.float32)
+                om.shift_origin_to(coord, max_batch_size=bs, mode=mode)
+                s = om.shifted_tensor.detach().cpu().numpy()
+            except Exception as e:
+                fails.append(({"relation": "path_runs", "path": "shift_origin_to", "mode": mode}, sub, f"shift_origin_to({coord}, max_batch_size={bs}, mode={mode!r}) raised {type(e).__name__}: {str(e)[:200]} for origins {org.tolist()}"))
+                continue
+            d = float(np.max(np.abs(s.astype(np.float64) - ref))) / float(ref.max())
+            bad = (not np.array_equal(s, ref)) if mode == "nearest" else not (d <= TOL_SHIFT)
+            if bad:
+                k = int(np.argmax(np.abs(s - ref).reshape(N, -1).max(1)))
+                neg = bool(np.any(org - np.array(coord) < 0))
+                fails.append(({"relation": "integer_origin_shift_equals_roll_over_the_full_range", "mode": mode, "origin_minus_target_has_a_negative_component": neg}, sub, f"shift_origin_to({coord}, max_batch_size={bs}, mode={mode!r}) scan {scan} det {det} {variant}: differs from np.roll by {d:.3e} of the maximum; pattern {k} origin {org[k].tolist()} target {list(coord)}: first row got {s.reshape(N, H, W)[k, 0].round(4).tolist()}, expected {ref.reshape(N, H, W)[k, 0].round(4).tolist()}"))
+            if verbose:
+                print(f"    {variant} origin[0] {org[0].tolist()} target {list(coord)} batch {bs} {mode:8s} deviation {d:.3e}")
+            points.append(([c, bs, mode], bool(np.any(org - np.array(coord) < 0)) or bool(np.any(org >= np.array([H, W]))), mixed))
+    return _tag(fails), points
+
+
+def eval_range(case):
+    t = Tally()
+    fails, points = range_case(case)
+    key0 = [case["scan"], case["det"], case["variant"], case["row"]]
+    for key, nontriv, mixed in points:
+        t.case(key=key0 + key, nontrivial=nontriv, outcome=None)
+        t.extra["range_calls_with_a_negative_or_beyond_component"] += int(nontriv)
+        t.extra["range_calls_with_mixed_signs"] += int(mixed)
+    for cls, sub, msg in fails:
+        t.fail(cls, sub, msg)
+    t.extra["range_calls"] += len(points)
+    if case["variant"] == "per_pattern" and case["row"] == -1 and tuple(case["det"]) == (6, 8):
+        t.sample({"origin_range": key0, "calls": len(points)}, cap=1)
+    return t
+
+
 # ----------------------------------------------------------------------------- run / replay
 def run(ctx):
     warnings.simplefilter("ignore")
@@ -1104,6 +1369,7 @@ def run(ctx):
         "a plane through a scan with an axis of length 1 is not unique, but its values at the scan positions are; such scans stay in the lattice",
         "integer fitted origin -> roll: the origin model is judged with the fitted origins rounded to the integers they equal within 1e-4 (shift_origin_to is exact only for bit-exact integers: for an origin such as 2.99999 the wrapped row is interpolated against zero padding; counted in count_origin_model_unrounded_fitted_origin_loses_wrapped_pixels, not a verdict); the dataset model is judged with its own fitted origins",
         "input dtype x layout: complex64 is rejected by both classes on HEAD and is counted, not flagged; every other rejection of a dtype or memory layout of the alphabet is a failure (dtype_accepted / layout_accepted)",
+        "origin range: integer origins outside the detector (negative, >= H/W) and integer target coordinates other than the corner are judged by np.roll by (coordinate - origin), which is modular; in the call-history part a shift to another target still only appears as an earlier call",
         "a shift_origin_to call with a target other than the corner is outside the property and only appears as an EARLIER call of a history",
     )
 
@@ -1152,6 +1418,26 @@ def run(ctx):
         if intorigin_fits(sc, d, k)
     ]
     mE = ctx.pmap(eval_intorigin, io_items, chunk=1, label="integer origin -> roll, both classes")
+    # intensity scale: same patterns x powers of ten, float32 and float64, every centre-of-mass path and batch size
+    sc_kinds = ["ramp", "seeded"]
+    sc_items = [
+        {"part": "scale", "scan": list(sc), "det": list(d), "kind": k, "dtype": dt, "scale": x, "seed": ctx.seed}
+        for sc, d, k, dt, x in itertools.product(SC_SCANS, SC_DETS, sc_kinds, ["float32", "float64"], SCALES)
+    ]
+    mS = ctx.pmap(eval_scale, sc_items, chunk=2, label="intensity scale")
+    if mS.extra["scale_configurations_run"] < 0.75 * len(sc_items) or mS.extra["scale_float32_1e-12_run"] < 8:
+        raise Broken(f"intensity-scale part degenerate: {mS.extra['scale_configurations_run']} of {len(sc_items)} configurations representable")
+    mS2 = ctx.pmap(eval_fit_scale, [(sc, x, o) for sc in SCANS for x in SLOPE_SCALES for o in ORIGIN_OFFSETS if (x, o) != (1.0, 0.0)], chunk=1, label="fits of origins of other magnitude")
+    # integer-origin range of shift_origin_to: [-2H, 2H] x [-2W, 2W], origins and target coordinate, mixed signs
+    rg_items = [
+        {"part": "range", "scan": [2, 3], "det": list(d), "variant": v, "row": r, "seed": ctx.seed}
+        for d in DETS
+        for v in ("uniform", "per_pattern", "coarse", "coordinate")
+        for r in (range_coarse(d[0]) if v == "coarse" else range_values(d[0]))
+    ]
+    mR = ctx.pmap(eval_range, rg_items, chunk=1, label="origin range")
+    if mR.extra["range_calls_with_mixed_signs"] < 1000 or mR.extra["range_calls_with_a_negative_or_beyond_component"] < 0.5 * mR.n:
+        raise Broken(f"origin-range part degenerate: {dict(mR.extra)}")
     # input dtype x memory layout of the 4-D stack, both classes, both dataset paths, every batch size
     dt_items = [
         {"part": "dtype", "scan": list(sc), "det": list(d), "dtype": dt, "member": mb, "layout": lay}
@@ -1185,6 +1471,9 @@ def run(ctx):
             "plane_coefficients": {"slopes": PLANE_SLOPES, "offsets": PLANE_OFFSETS, "constants_row_x_column": CONSTANTS},
             "fit_paths": ["ptycho_utils.fit_origin(mask=all true)", "CenterOfMassOriginModel.fit_origin_background", "preprocess(com_fit_function).com_fit", "calculate_origin + fit_origin_background"],
             "shift": "every integer origin of the detector x {uniform, per-pattern} x every batch size x {bilinear, nearest}",
+            "intensity_scales": {"scales": SCALES, "dtypes": ["float32", "float64"], "scans": [list(x) for x in SC_SCANS], "detectors": [list(x) for x in SC_DETS], "data": sc_kinds, "rule": "a scale is used when every stored float32 value and total x largest coordinate is a normal finite float32"},
+            "origin_magnitudes_for_fits": {"slope_scales": SLOPE_SCALES, "constant_offsets_px": ORIGIN_OFFSETS, "tolerance": "1e-5 x max(|origin|, 10) px"},
+            "origin_range": "shift_origin_to: origins (uniform; per-pattern plane crossing the edges, mixed signs) and target coordinate over [-2H,2H] x [-2W,2W], batch sizes {None, 4} (coarse grid {-2n,-n-1,-n,-1,0,1,n-1,n,n+1,2n}: every batch size), both modes; shift_array over the same range",
             "input_dtypes": DTYPES + [f"{d} (rejected on HEAD: counted, not flagged)" for d in DTYPES_REJECTED_ON_HEAD],
             "input_dtype_members": "integer counts exact in every dtype; 'low' (pattern totals < 1000), 'mid' (odd multiples, totals of several thousand: float16 no longer adds them exactly) and 'high' (scaled per dtype: float16 totals exceed 65504, uint8 up to 240, uint16 up to 60000, int32/int64 up to 3e5 per pixel)",
             "input_layouts": LAYOUTS,
@@ -1199,6 +1488,12 @@ def run(ctx):
         fit_cases=int(mB.n),
         shift_calls=int(mC.n),
         shift_array_calls=int(mD.n),
+        intensity_scale_points=int(mS.n),
+        intensity_scale_configurations={"run": int(mS.extra["scale_configurations_run"]), "skipped_not_representable_in_float32": int(mS.extra["scale_configurations_skipped"])},
+        scaled_origin_fit_cases=int(mS2.n),
+        origin_range_calls=int(mR.n),
+        origin_range_calls_with_a_negative_or_beyond_component=int(mR.extra["range_calls_with_a_negative_or_beyond_component"]),
+        origin_range_calls_with_mixed_signs=int(mR.extra["range_calls_with_mixed_signs"]),
         integer_origin_pipelines=int(mE.n),
         call_histories=int(mF.n),
         dtype_layout_points=int(mG.n),
@@ -1225,6 +1520,13 @@ def replay(ctx, case):
         fails, _ = shift_case(case, verbose=True)
     elif part == "shift_array":
         fails, _ = shift_array_case(case, verbose=True)
+    elif part == "scale":
+        print(f"  {case['dtype']} intensities x {case['scale']:g}, scan {case['scan']} det {case['det']} data {case['kind']} (all paths and batch sizes re-run)")
+        fails, _, _ = scale_case(case, verbose=True)
+    elif part == "fit_scale":
+        fails, _ = fit_scale_case(case, verbose=True)
+    elif part == "range":
+        fails, _ = range_case(case, verbose=True)
     elif part == "dtype":
         print(f"  {case['dtype']} stack ({case['member']} counts), layout {case['layout']}, scan {case['scan']} det {case['det']} (all paths and batch sizes re-run)")
         fails, _, _ = dtype_case(case, verbose=True)
